@@ -11,8 +11,9 @@ EXTENDS Validation, Json
 CONSTANTS Mode, MaxV, MaxF,
           PlaceSet,      \* placements explored
           Caps,          \* values of maxValidationErrors explored
-          FieldTypes,    \* rules mode: field types explored
-          Catalogue      \* fields mode: "small" | "large"
+          FieldTypes,    \* rules mode: field families explored (a family = a field type + a validator alphabet + statuses)
+          Catalogue,     \* fields mode: "small" | "large"
+          Pols           \* mismatchedTypesPolicy values explored: subset of {"skip", "throw"}
 
 VARIABLES scn
 vars == <<scn>>
@@ -23,6 +24,7 @@ Req      == V("req", 0, 0, "")
 ReqC     == V("req", 0, 0, "Age is required")
 Range1   == V("range", 0, 10, "")
 RangeC   == V("range", 1, 9, "Age should be in the range 1...9")
+RangeEq  == V("range", 5, 5, "")
 Custom   == V("custom", 0, 0, "")
 CustomC  == V("custom", 0, 0, "rejected by the custom rule")
 MinSize2 == V("minsize", 2, 0, "")
@@ -34,23 +36,60 @@ EmailC   == V("email", 0, 0, "not an e-mail")
 Phone    == V("phone", 7, 15, "")
 PhoneNP  == V("phonenp", 7, 15, "")
 PhoneC   == V("phone", 7, 15, "not a phone")
+PhoneNPC == V("phonenp", 7, 15, "not a phone either")
+Phone612 == V("phone", 6, 12, "")                       \* the shape used by validators_tests.cpp
+Phone612C == V("phone", 6, 12, "Bad office phone")
+PhoneNP612 == V("phonenp", 6, 12, "")
+PhoneEq  == V("phone", 10, 10, "")                      \* fixed length: min = max
+PhoneEqC == V("phone", 10, 10, "Bad mobile phone")
+PhoneNPEqC == V("phonenp", 12, 12, "Bad local phone")
 
-Alphabet(t) ==
-  IF t = "int" THEN {Req, ReqC, Range1, RangeC, Custom}
-  ELSE IF t = "optint" THEN {Req, ReqC, Custom, CustomC}
-  ELSE {Req, MinSize2, MaxSize4, MinSizeC, MaxSizeC, Email, EmailC, Phone, PhoneNP, PhoneC, Custom}
+\* Families of the rules mode: family -> field type, validator alphabet, statuses
+TypeOf(fam) == IF fam \in {"phone", "email"} THEN "str" ELSE fam
+Alphabet(fam) ==
+  CASE fam = "int"    -> {Req, ReqC, Range1, RangeC, RangeEq, Custom}
+    [] fam = "optint" -> {Req, ReqC, Custom, CustomC}
+    [] fam = "str"    -> {Req, MinSize2, MaxSize4, MinSizeC, MaxSizeC, Email, EmailC, Phone, PhoneNP, PhoneC, Custom}
+    [] fam = "phone"  -> {Req, Phone, PhoneC, PhoneNP, PhoneNPC, Phone612, Phone612C, PhoneNP612, PhoneEq, PhoneEqC, PhoneNPEqC}
+    [] fam = "email"  -> {Req, Email, EmailC, Custom, MaxSizeC}
+    [] fam \in {"vecint", "vecstr", "mapint"} -> {Req, ReqC, MinSize2, MaxSize4, MinSizeC, MaxSizeC}
+    [] fam = "obj"    -> {Req, ReqC, Custom, CustomC}
 
-(* Statuses and the document value they stand for.  int: relative to Range(0,10) and Range(1,9);                     *)
-(* str: relative to MinSize(2)/MaxSize(4) and MinSize(3)/MaxSize(3)                                                  *)
+(* Statuses and the document value they stand for.  int: relative to Range(0,10), Range(1,9) and Range(5,5);           *)
+(* strings and containers: sizes relative to MinSize(2)/MaxSize(4) and MinSize(3)/MaxSize(3)                           *)
+Ints(n) == [i \in 1..n |-> i]
+Strs(n) == SubSeq(<<"a", "b", "c", "d", "e">>, 1, n)
+Pairs(n) == SubSeq(<< <<"a1", 1>>, <<"a2", 2>>, <<"a3", 3>>, <<"a4", 4>>, <<"a5", 5>> >>, 1, n)
+SizeOfStatus(st) == CASE st = "len1" -> 1 [] st = "len2" -> 2 [] st = "len3" -> 3 [] st = "len4" -> 4 [] st = "len5" -> 5
+EmailStatus == [em1 |-> "simple@example.com", em2 |-> "x@example.com", em3 |-> "abc.example.com", em4 |-> "a@b@example.com",
+                em5 |-> "first last@example.com", em6 |-> "smith 2000@mail.com", em7 |-> "very.common@example.com",
+                em8 |-> "admin@example", em9 |-> "admin@example10.com", em10 |-> "admin@best-example.com", em11 |-> "0123456789@example.com",
+                em12 |-> "@", em13 |-> ".name@example.com", em14 |-> "name.@example.com", em15 |-> "first..last@example.com",
+                em16 |-> "john(doe)@example.org)", em17 |-> "john<doe>@example.org)", em18 |-> "john_doe@", em19 |-> "john_doe@-example.com",
+                em20 |-> "john_doe@example.com-", em21 |-> "john_doe@10example.com", em22 |-> "john_doe@example com", em23 |-> "john_doe@example_com"]
+PhoneStatus == [ph1 |-> "+555 (55) 555-55-55", ph2 |-> "(55) 555 55 55", ph3 |-> "555 5 55 55", ph4 |-> "+12345", ph5 |-> "+1234567890123",
+                ph6 |-> "+44 20 7123 1234", ph7 |-> "+1 (555) 555-55-55", ph8 |-> "+91-22-27782183", ph9 |-> "+1 ((555)) 555-55-55",
+                ph10 |-> "+1 (555 555-55-55", ph11 |-> "+1 (555) )555-55-55", ph12 |-> "+1 () 555-55-55", ph13 |-> "+1 555 555-55-55 )",
+                ph14 |-> "+1 555 555-55-55 ()", ph15 |-> "-1 (555) 555-5555", ph16 |-> "-(555) 555-5555", ph17 |-> "+1 (555) 555--5555",
+                ph18 |-> "+1 (555) 555-5555-", ph19 |-> "+1 (555) -555-55-55", ph20 |-> "+1 (-555) 555-55-55", ph21 |-> "+1 (555-) 555-55-55",
+                ph22 |-> "*1 (555) 555-55-55", ph23 |-> "1 (555) 555-55-55$", ph24 |-> "1 (555) 555-55=55"]
 DocOf(t, st) ==
+  IF st \in DOMAIN EmailStatus THEN <<"str", EmailStatus[st]>>
+  ELSE IF st \in DOMAIN PhoneStatus THEN <<"str", PhoneStatus[st]>>
+  ELSE IF t \in {"vecint", "vecstr", "mapint"} /\ st \in {"len1", "len2", "len3", "len4", "len5"} THEN
+       (IF t = "vecint" THEN <<"ints", Ints(SizeOfStatus(st))>> ELSE IF t = "vecstr" THEN <<"strs", Strs(SizeOfStatus(st))>>
+        ELSE <<"imap", Pairs(SizeOfStatus(st))>>)
+  ELSE IF t = "obj" /\ st \in {"valid", "even"} THEN <<"obj", IF st = "valid" THEN 5 ELSE 6>>
+  ELSE
   CASE st = "absent" -> <<"absent">>
     [] st = "null" -> <<"null">>
-    [] st = "mismatch" -> IF t = "str" THEN <<"int", 12>> ELSE <<"str", "zz">>
+    [] st = "mismatch" -> IF t \in {"int", "optint"} THEN <<"str", "zz">> ELSE <<"int", 12>>
     [] st = "below" -> <<"int", -1>>      \* just outside Range(0,10)
     [] st = "lower" -> <<"int", 0>>       \* at the lower bound of Range(0,10), just outside Range(1,9)
     [] st = "inlow" -> <<"int", 1>>       \* just inside Range(0,10), at the lower bound of Range(1,9)
-    [] st = "valid" -> <<"int", 5>>
-    [] st = "even" -> <<"int", 6>>
+    [] st = "four" -> <<"int", 4>>        \* just below Range(5,5)
+    [] st = "valid" -> <<"int", 5>>       \* Range(5,5): at both bounds
+    [] st = "even" -> <<"int", 6>>        \* just above Range(5,5)
     [] st = "inhigh" -> <<"int", 9>>
     [] st = "upper" -> <<"int", 10>>
     [] st = "above" -> <<"int", 11>>
@@ -60,26 +99,19 @@ DocOf(t, st) ==
     [] st = "len4" -> <<"str", "abcd">>
     [] st = "len5" -> <<"str", "abcde">>
     [] st = "space" -> <<"str", "a b">>
-    [] st = "em1" -> <<"str", "simple@example.com">>
-    [] st = "em2" -> <<"str", "x@example.com">>
-    [] st = "em3" -> <<"str", "abc.example.com">>
-    [] st = "em4" -> <<"str", "a@b@example.com">>
-    [] st = "em5" -> <<"str", "first last@example.com">>
-    [] st = "em6" -> <<"str", "smith 2000@mail.com">>
-    [] st = "em7" -> <<"str", "very.common@example.com">>
-    [] st = "ph1" -> <<"str", "+555 (55) 555-55-55">>
-    [] st = "ph2" -> <<"str", "(55) 555 55 55">>
-    [] st = "ph3" -> <<"str", "555 5 55 55">>
-    [] st = "ph4" -> <<"str", "+12345">>
-    [] st = "ph5" -> <<"str", "+1234567890123">>
-    [] st = "ph6" -> <<"str", "+44 20 7123 1234">>
-    [] st = "ph7" -> <<"str", "+1 (555) 555-55-55">>
 
-Statuses(t) ==
-  IF t = "int" THEN {"below", "lower", "inlow", "valid", "even", "inhigh", "upper", "above", "absent", "null", "mismatch"}
-  ELSE IF t = "optint" THEN {"valid", "even", "absent", "null", "mismatch"}
-  ELSE {"len1", "len2", "len3", "len4", "len5", "space", "absent", "null", "mismatch",
-        "em1", "em2", "em3", "em4", "em5", "em6", "em7", "ph1", "ph2", "ph3", "ph4", "ph5", "ph6", "ph7"}
+Statuses(fam) ==
+  CASE fam = "int" -> {"below", "lower", "inlow", "four", "valid", "even", "inhigh", "upper", "above", "absent", "null", "mismatch"}
+    [] fam \in {"optint", "obj"} -> {"valid", "even", "absent", "null", "mismatch"}
+    [] fam = "str" -> {"len1", "len2", "len3", "len4", "len5", "space", "absent", "null", "mismatch",
+                       "em1", "em2", "em3", "em4", "em5", "em6", "em7", "ph1", "ph2", "ph3", "ph4", "ph5", "ph6", "ph7"}
+    [] fam = "phone" -> DOMAIN PhoneStatus \cup {"absent", "null"}
+    [] fam = "email" -> DOMAIN EmailStatus \cup {"absent", "null"}
+    [] fam \in {"vecint", "vecstr", "mapint"} -> {"len1", "len2", "len3", "len4", "len5", "absent", "null", "mismatch"}
+
+\* the policy only matters where a value can be mismatched, or (a claim about null) not loaded: the ThrowError policy is
+\* explored with these statuses
+ThrowStatuses == {"mismatch", "null", "absent", "valid", "len3", "len5"}
 
 Key(k) == "f" \o ToString(k)
 Field(k, t, st, vs) == [key |-> Key(k), t |-> t, st |-> st, doc |-> DocOf(t, st), vs |-> vs]
@@ -89,13 +121,14 @@ NelOf(p) == IF p \in {"flat", "nested"} THEN {1} ELSE {1, 2}
 
 -----------------------------------------------------------------------------
 (* Mode "rules" *)
-InitRules == \E p \in PlaceSet, c \in Caps, t \in FieldTypes :
-               \E n \in NelOf(p), st \in Statuses(t) :
-                  scn = [place |-> p, nel |-> n, cap |-> c, fields |-> <<Field(1, t, st, <<>>)>>]
+InitRules == \E p \in PlaceSet, c \in Caps, fam \in FieldTypes, pol \in Pols :
+               \E n \in NelOf(p), st \in Statuses(fam) :
+                  /\ pol = "throw" => st \in ThrowStatuses
+                  /\ scn = [place |-> p, nel |-> n, cap |-> c, pol |-> pol, fam |-> fam, fields |-> <<Field(1, TypeOf(fam), st, <<>>)>>]
 
 NextRules == LET f == scn.fields[1] IN
              /\ Len(f.vs) < MaxV
-             /\ \E v \in Alphabet(f.t) :
+             /\ \E v \in Alphabet(scn.fam) :
                   /\ \A j \in 1..Len(f.vs) : f.vs[j] # v
                   /\ FieldInScope([f EXCEPT !.vs = Append(@, v)])
                   /\ scn' = [scn EXCEPT !.fields[1].vs = Append(@, v)]
@@ -111,7 +144,8 @@ Small == {
   <<"int", "mismatch", <<Range1>>>>,                   \* not loaded, passes
   <<"str", "len5", <<MaxSize4, MaxSizeC>>>>,           \* 2 messages
   <<"str", "len4", <<Req, MinSize2, MaxSize4>>>>,      \* passes at the bound
-  <<"optint", "null", <<ReqC, Custom>>>> }             \* 1 custom message
+  <<"optint", "null", <<ReqC, Custom>>>>,              \* 1 custom message
+  <<"vecint", "null", <<Req, MinSize2>>>> }            \* container, null: Required fails, MinSize passes
 
 Large == Small \cup {
   <<"int", "upper", <<Range1, Custom>>>>,              \* passes at the upper bound
@@ -121,13 +155,16 @@ Large == Small \cup {
   <<"str", "em6", <<Req, Email, Custom>>>>,            \* the README example: 2 messages
   <<"str", "ph2", <<Phone, PhoneNP, MaxSize4>>>>,      \* 2 messages around a passing validator
   <<"str", "len1", <<MinSize2, MinSizeC, Custom>>>>,   \* 2 messages then a passing lambda
-  <<"optint", "valid", <<Req, CustomC>>>> }            \* 1 message (odd value)
+  <<"optint", "valid", <<Req, CustomC>>>>,             \* 1 message (odd value)
+  <<"vecstr", "len5", <<MaxSize4, MaxSizeC>>>>,        \* container too large: 2 messages
+  <<"mapint", "len2", <<Req, MinSize2>>>>,             \* container at the bound: passes
+  <<"obj", "absent", <<ReqC, Custom>>>> }              \* nested object absent: 1 custom message
 
 Profiles == IF Catalogue = "small" THEN Small ELSE Large
 FieldOf(k, pr) == Field(k, pr[1], pr[2], pr[3])
 
-InitFields == \E p \in PlaceSet, c \in Caps, pr \in Profiles :
-                \E n \in NelOf(p) : scn = [place |-> p, nel |-> n, cap |-> c, fields |-> <<FieldOf(1, pr)>>]
+InitFields == \E p \in PlaceSet, c \in Caps, pr \in Profiles, pol \in Pols :
+                \E n \in NelOf(p) : scn = [place |-> p, nel |-> n, cap |-> c, pol |-> pol, fam |-> "", fields |-> <<FieldOf(1, pr)>>]
 
 NextFields == /\ Len(scn.fields) < MaxF
               /\ \E pr \in Profiles : scn' = [scn EXCEPT !.fields = Append(@, FieldOf(Len(@) + 1, pr))]
@@ -145,17 +182,26 @@ KthSmallest(S, k) == CHOOSE x \in S : Cardinality({y \in S : y < x}) = k - 1
 WellFormed == \A k \in 1..NF(scn) : FieldInScope(scn.fields[k])
 
 \* ValidationException iff at least one validator attached to a field fails
-ExceptionIffFailure(res, failingInst) == res.exc <=> (failingInst # {})
+\* (unless the load ends with the policy error MismatchedTypes: res.mm)
+ExceptionIffFailure(res, failingInst) == ~res.mm => (res.exc <=> (failingInst # {}))
+
+\* the policy error ends the load iff the policy is ThrowError, a value is mismatched and the cap did not end the load before it
+PolicyError(res, inst) ==
+  LET mis == {i \in 1..Len(inst) : IsMismatch(inst[i].f.t, inst[i].f.doc)} IN
+  /\ res.mm => (scn.pol = "throw" /\ mis # {} /\ ~res.exc /\ res.rep = <<>>)
+  /\ (scn.pol = "throw" /\ mis # {} /\ ~res.mm) => (res.stop # 0 /\ \A i \in mis : res.stop < i)
+  /\ (scn.pol = "skip" \/ mis = {}) => ~res.mm
 
 \* exactly the failing fields; with a cap exactly min(cap, #failing) of them, the first ones in load order
 ExactlyFailingFields(res, failingInst) ==
-  LET reported == {res.rep[j].i : j \in 1..Len(res.rep)} IN
-  /\ reported \subseteq failingInst
-  /\ Cardinality(reported) = Len(res.rep)
-  /\ (scn.cap = 0 => reported = failingInst)
-  /\ (scn.cap > 0 => Cardinality(reported) = Min(scn.cap, Cardinality(failingInst)))
-  /\ \A i \in reported, q \in failingInst : q < i => q \in reported
-  /\ \A j \in 1..(Len(res.rep) - 1) : res.rep[j].i < res.rep[j + 1].i
+  LET reported == {res.rep[j].i : j \in 1..Len(res.rep)}
+      exact == /\ reported \subseteq failingInst
+               /\ Cardinality(reported) = Len(res.rep)
+               /\ (scn.cap = 0 => reported = failingInst)
+               /\ (scn.cap > 0 => Cardinality(reported) = Min(scn.cap, Cardinality(failingInst)))
+               /\ \A i \in reported, q \in failingInst : q < i => q \in reported
+               /\ \A j \in 1..(Len(res.rep) - 1) : res.rep[j].i < res.rep[j + 1].i
+  IN res.mm \/ exact
 
 \* each with exactly the messages of its failing validators in declaration order (independent formulation: the k-th
 \* message is the message of the k-th smallest failing validator index)
@@ -181,9 +227,9 @@ BuiltinSemantics ==
       /\ (v.k # "req" /\ ~L => ~Fails(v, f.t, f.doc))
       /\ (v.k = "range" /\ L /\ f.doc[2] \in {v.a, v.b} => ~Fails(v, f.t, f.doc))
       /\ (v.k = "range" /\ L /\ f.doc[2] \in {v.a - 1, v.b + 1} => Fails(v, f.t, f.doc))
-      /\ (v.k \in {"minsize", "maxsize"} /\ L /\ Len(f.doc[2]) = v.a => ~Fails(v, f.t, f.doc))
-      /\ (v.k = "minsize" /\ L /\ Len(f.doc[2]) = v.a - 1 => Fails(v, f.t, f.doc))
-      /\ (v.k = "maxsize" /\ L /\ Len(f.doc[2]) = v.a + 1 => Fails(v, f.t, f.doc))
+      /\ (v.k \in {"minsize", "maxsize"} /\ L /\ Size(f.doc) = v.a => ~Fails(v, f.t, f.doc))
+      /\ (v.k = "minsize" /\ L /\ Size(f.doc) = v.a - 1 => Fails(v, f.t, f.doc))
+      /\ (v.k = "maxsize" /\ L /\ Size(f.doc) = v.a + 1 => Fails(v, f.t, f.doc))
 
 \* M refines A once the errors of a field are added together; the unchanged algorithm differs from A exactly under
 \* the guard of the named deviation, and then it produces exactly ADev
@@ -198,7 +244,7 @@ ExportField(f) == [key |-> f.key, t |-> f.t, st |-> f.st, doc |-> f.doc, vs |-> 
 Export(res, inst, mu) ==
   PrintT(<<"GEN", ToJson([place |-> scn.place, nel |-> scn.nel, cap |-> scn.cap,
                           fields |-> [k \in 1..NF(scn) |-> ExportField(scn.fields[k])],
-                          archs |-> Archs(scn),
+                          pol |-> scn.pol, fam |-> scn.fam, archs |-> Archs(scn),
                           exp |-> Obs(scn, inst, res),
                           expdev |-> (IF DevGuard_ValidationCapTruncatesLastField(res)
                                       THEN <<[dev |-> "Dev_ValidationCapTruncatesLastField", only |-> "any", exp |-> Obs(scn, inst, mu)]>>
@@ -216,6 +262,7 @@ Check ==
       failingInst == {i \in 1..Len(inst) : FailSet(inst[i].f) # {}}
   IN /\ WellFormed
      /\ ExceptionIffFailure(res, failingInst)
+     /\ PolicyError(res, inst)
      /\ ExactlyFailingFields(res, failingInst)
      /\ ExactlyFailingRules(res, inst)
      /\ PassingFieldsLoaded(res, inst, failingInst)
